@@ -18,7 +18,7 @@ ASSUMPTIONS = ["planar metric, InMemMap; graphs <= 12 nodes, traces <= 12 points
                "relative tolerance 1e-8", "open finding F14 (stale probability after extend/widen) recognised only by its signature: "
                "history with at least one expansion call, reported value LOWER than the model value"]
 TOLERANCES = {"relative": 1e-8}
-BUDGET = {"quick": {"shards": 8, "examples": 600}, "thorough": {"shards": 16, "examples": 10000}}
+BUDGET = {"quick": {"shards": 8, "examples": 1000}, "thorough": {"shards": 16, "examples": 10000}}
 
 
 _traced = {}
